@@ -282,8 +282,10 @@ example : reverseF [.int .int 1, .nil, .str [97]] = [.str [97], .nil, .int .int 
 /-! ## uniq -/
 
 /-- `uniq` keeps the first occurrence of each class of equal elements, in order. Equality is Go's
-(`ArrF.same`: same dynamic type and contents, i.e. same canonical encoding — `1` and `1.0` differ, two maps
-with the same entries in different orders do not):
+(`ArrF.same`: scalars by dynamic type and contents — `1` and `1.0` differ —, arrays and maps by what they hold
+whatever the Go type that holds it, a drop in them standing for its value: the same canonical encoding of
+`uniqForm`; two maps with the same entries in different orders are the same element, and so are `[]int{1}`,
+`[]any{1}` and `[]any{Drop(1)}`):
 the result is a sublist of the input, no two kept elements are equal, every input element is equal
 to a kept one, and an element appended to the input is kept exactly when nothing equal precedes it. -/
 theorem uniq_spec (xs : List GoVal) :
@@ -292,25 +294,31 @@ theorem uniq_spec (xs : List GoVal) :
     (∀ x ∈ xs, ∃ y ∈ uniqF xs, same y x = true) ∧
     (∀ x, uniqF (xs ++ [x]) = uniqF xs ++ (if xs.any (same x ·) then [] else [x])) := by
   refine ⟨uniqOn_sublist _ _ _, ?_, ?_, ?_⟩
-  · exact (uniqOn_pairwise MapOrder.canonEnc [] xs).imp (by intro a b h; simpa [same] using h)
+  · exact (uniqOn_pairwise uniqKey [] xs).imp (by intro a b h; simpa [same] using h)
   · intro x hx
-    rcases uniqOn_support MapOrder.canonEnc [] xs x hx with h | ⟨y, hy, hk⟩
+    rcases uniqOn_support uniqKey [] xs x hx with h | ⟨y, hy, hk⟩
     · simp at h
     · exact ⟨y, hy, by simpa [same] using hk⟩
   · intro x
-    have hc : (xs.map MapOrder.canonEnc).contains (MapOrder.canonEnc x) = xs.any (same x ·) := by
+    have hc : (xs.map uniqKey).contains (uniqKey x) = xs.any (same x ·) := by
       induction xs with
       | nil => rfl
       | cons z zs ih =>
-        show ((z :: zs).map MapOrder.canonEnc).contains (MapOrder.canonEnc x) = ((same x z) || zs.any (same x ·))
+        show ((z :: zs).map uniqKey).contains (uniqKey x) = ((same x z) || zs.any (same x ·))
         rw [List.map_cons, List.contains_cons, ih]; rfl
-    have h := uniqOn_append_singleton MapOrder.canonEnc [] xs x
+    have h := uniqOn_append_singleton uniqKey [] xs x
     rw [List.contains_nil, Bool.false_or, hc] at h
     exact h
 
 /-- `1`, `1.0` and `int8(1)` are three different elements; the second `1` and the second nil go -/
 example : (uniqF [.int .int 1, .flt .f64 1, .int .int 1, .nil, .str [97], .nil, .int .i8 1]).map GoVal.enc
     = ([.int .int 1, .flt .f64 1, .nil, .str [97], .int .i8 1] : List GoVal).map GoVal.enc := by decide +kernel
+
+/-- a typed slice, its generic twin, a fixed array and a slice holding a drop of a drop are one element
+    (`fixes/nested-drops-resolved`; they were four) -/
+example : (uniqF [.slice (.int .int) [.int .int 1], .slice .any [.int .int 1], .array (.int .int) [.int .int 1],
+      .slice .any [.drop (.drop (.int .int 1))], .slice .any [.flt .f64 1]]).map GoVal.enc
+    = ([.slice (.int .int) [.int .int 1], .slice .any [.flt .f64 1]] : List GoVal).map GoVal.enc := by decide +kernel
 
 /-! ## first, last, size -/
 
@@ -360,13 +368,14 @@ example : firstF [.int .int 7, .nil] = .int .int 7 ∧ lastF [.int .int 7, .nil]
 
 /-! ## join, map -/
 
-/-- `join`: the printed forms (`fmt.Sprint`) of the non-nil elements with the separator between them -/
+/-- `join`: the printed forms (`fmt.Sprint`, the drops nested in an element resolved first:
+    `values.ResolveDrops`) of the non-nil elements with the separator between them -/
 theorem join_spec (xs : List GoVal) (sep : Bytes) (ss : List Bytes)
-    (h : sprintAll (xs.filter (fun x => !x.isNil)) = .ok ss) :
+    (h : sprintAll ((xs.filter (fun x => !x.isNil)).map GoVal.resolveDrops) = .ok ss) :
     joinF xs sep = .ok (.str (sep.intercalate ss)) := by
   simp [joinF, sprintNonNil_eq, h, Res.bind, joinBytes_eq_intercalate]
 
-example : sprintAll ([GoVal.int .int 1, .nil, .str [97]].filter (fun x => !x.isNil)) = .ok [[49], [97]] := by
+example : sprintAll (([GoVal.int .int 1, .nil, .str [97]].filter (fun x => !x.isNil)).map GoVal.resolveDrops) = .ok [[49], [97]] := by
   simp [sprintAll, sprint, GoVal.isNil, intDec, natDec, decDigitsAux, Res.bind]
 
 /-- `map: key` is the per-element property lookup (`obj.key`, as `Lookup.lean` defines it) -/
